@@ -151,6 +151,16 @@ func Lookup(name string) interface{} { return stubs[name] }
 // Merge asks the executor to join the returning paths of the named effect-free function.
 func Merge(name string) {}
 
+// SortSlice is what the executor runs for sort.Slice / sort.SliceStable (which use reflection):
+// a stable insertion sort driven by the caller's less and an element swap.
+func SortSlice(n int, less func(i, j int) bool, swap func(i, j int)) {
+	for i := 1; i < n; i++ {
+		for j := i; j > 0 && less(j, j-1); j-- {
+			swap(j, j-1)
+		}
+	}
+}
+
 // TempDir returns a fresh scratch directory (natively a real one, removed after the run; in
 // the executor the root of a per-path set of existing file names).
 func TempDir() string {
